@@ -42,7 +42,8 @@
 (***************************************************************************)
 EXTENDS Naturals, Sequences, FiniteSets, TLC, Json, SequencesExt, FiniteSetsExt
 
-CONSTANTS Ops,        \* set of operations Init quantifies over (design run / scenario generator)
+CONSTANTS Ops,        \* SEQUENCE of sets of operations Init quantifies over (design run / scenario generator); kept as
+                      \* separate strata because TLC enumerates a union of lazily built sets quadratically
           Variant,    \* "as_is" | "fixed"
           Emit        \* TRUE: print SCEN (one per operation) and DESIGN (one per failing modelled call) lines
 
@@ -480,7 +481,7 @@ ModelFails(c) == LET s == Run(c) IN IF s.pc = "dead" THEN {} ELSE Failures(c, s.
 \* (the signature and the argument plans are derived in an action of their own, not in Init: TLC computes initial states
 \*  on one thread, successor states on all of them)
 Init ==
-  /\ \E op \in Ops : call = [op |-> op, sig |-> <<>>, plan |-> {}, args |-> <<>>, reqs |-> <<>>,
+  /\ \E k \in DOMAIN Ops : \E op \in Ops[k] : call = [op |-> op, sig |-> <<>>, plan |-> {}, args |-> <<>>, reqs |-> <<>>,
                               raised |-> [exc |-> "", msgclass |-> ""], suspects |-> <<>>]
   /\ pc = "init" /\ env = <<>> /\ req = NoReq /\ verdict = {}
 
